@@ -237,6 +237,8 @@ fn run_m<M: RawMutex>(cfg: &Cfg, ops: &[Op], run: &mut Run) {
     if fair {
         run.class(CL_FAIR);
     }
+    // an arithmetic overflow in the permit accounting is an over-grant
+    run.panic_also = Some("C05");
     // for the shared flavour the handles live in a Vec that is never emptied while futures need
     // a handle to be created; the last handle is only dropped at teardown
     let sem: Sem<M> =
